@@ -21,7 +21,7 @@ def run(tier):
     # block kernels: the assembled mh_sha1 / mh_sha256 block functions of the four SIMD families, executed symbolically (asmsym):
     # every segment's interim digest == iterated standard compression over the words dealt to that segment
     aescampaign.run("C05", tier, ev, vd, only=("mhkernel",))
-    ev.assume("block kernels: z3 proves, for all 16 segments, all incoming interim digests and all message bytes, digests' = compress*(digests, words of the segment) for %s per call; reads only the block bytes, writes only digests and the frame buffer" % ("one 1024-byte block" if tier == "quick" else "two 1024-byte blocks"))
+    ev.assume("block kernels: z3 proves, for all 16 segments, all incoming interim digests and all message bytes, digests' = compress*(digests, words of the segment) for %s per call; reads only the block bytes, writes only digests and the frame buffer" % ("one 1024-byte block" if tier == "quick" else "two 1024-byte blocks (mh_sha1) / one block (mh_sha256)"))
     ev.cov["bounds"].update(mhglue.MH_BOUNDS)
     ev.cov["bounds"]["final_hash_lengths"] = "the length the glue passes (320 / 512) and the padding boundaries 0,55,56,63,64,119,120" if tier == "quick" else "320 / 512 and every length 0..192"
     ev.cov["outside_bounds"] += [x for x in mhglue.MH_OUTSIDE if not x.startswith("the block kernels")] + ["block kernels: more than %d block(s) per call; the base C block function; the single-block SHA compression used by the final hash" % (1 if tier == "quick" else 2), "final hash over the segment digests: lengths other than the listed ones"]
